@@ -661,8 +661,19 @@ class StubsLib(StubsBase):
         def delayed(c, f, pure=None, **k):
             c.note("stub:dask.delayed(f)(*args) = f(*args) (pure task)")
             return Stub(lambda c2, *a, **kw: self.interp.call(f, a, kw, c2), "delayed-call")
+        def map_blocks(c, func, x, *a, **kw):
+            c.note("stub:da.map_blocks(f, x) = f applied block-wise, equal to f(x) for element-wise / un-chunked-axis f; lazy")
+            if not isinstance(x, SArr) or x.backend != "dask":
+                raise Unsupported("map_blocks operand")
+            for k in ("dtype", "chunks", "drop_axis", "new_axis", "meta", "name", "token"):
+                kw.pop(k, None)
+            r = self.interp.call(func, (SArr(x.shape, x.elem, x.dtype, "numpy"),) + tuple(a), kw, c)
+            if not isinstance(r, SArr):
+                raise Unsupported("map_blocks result")
+            return SArr(r.shape, r.elem, r.dtype, "dask")
         da = NS("dask.array", {
             "Array": da_arr,
+            "map_blocks": Stub(map_blocks, "da.map_blocks"),
             "from_delayed": Stub(from_delayed, "da.from_delayed"),
             "asanyarray": Stub(asany, "da.asanyarray"),
             "asarray": Stub(asany, "da.asarray"),
